@@ -31,7 +31,8 @@ LEVEL_TEXT = ("Exploration: thousands of trees (all shape classes incl. single n
               "sorted and permuted numberings; generic, far-from-origin, integer and exact-radial-"
               "distance geometries; zero-length segments) x ~30 quantities, per-node quantities on "
               "every node of small trees; populations of 1-6 trees incl. single-node trees for the "
-              "zero-padded front end. Held = held on those executions.")
+              "zero-padded front end. Held = held on those executions."
+              "Each extractor object is queried repeatedly with different arguments.")
 LEVEL_NOTE = ("Encodes these readings: node branch order = depth of a critical node in the branch "
               "tree; L-Measure branch order = furcations on the root path, ends included; tilt = "
               "the smaller angle at the bifurcation between the ray to the parent and a daughter "
